@@ -119,14 +119,36 @@ def build_instance(dendropy, inst):
     return tl
 
 
-def writer_kwargs(schema, o):
+def writer_kwargs(schema, o, pad=None):
     if schema == "nexml":
         return {}
     kw = {"unquoted_underscores": o["uu"], "preserve_spaces": o["ps"], "suppress_rooting": o["suprooting"],
           "store_tree_weights": o["weights"]}
     if schema == "nexus" and o["translate"]:
         kw["translate_tree_taxa"] = True
+    if pad:
+        kw["suppress_item_comments"] = False          # tree / node comments are written (default of NEXUS, option of Newick)
+        if pad.get("file") is not None and schema == "nexus":
+            kw["file_comments"] = ["x" * pad["file"]]
     return kw
+
+
+def apply_pad(tl, pad):
+    """Padding with the writers' own means: a comment of n characters on the first tree (written in front
+    of its statement), a comment on every labelled internal node (label directly followed by '[').  Comments
+    are not part of the projection."""
+    if not pad:
+        return
+    if pad.get("tree") is not None and len(tl):
+        tl[0].comments.append("x" * pad["tree"])
+    if pad.get("node_comments"):
+        for t in tl:
+            st = [t.seed_node]
+            while st:
+                nd = st.pop()
+                st.extend(nd._child_nodes)
+                if nd._child_nodes and nd.label:
+                    nd.comments.append("c")
 
 
 def reader_kwargs(schema, o):
@@ -180,9 +202,9 @@ def _guarded(reader, text):
     return (kind, val)
 
 
-def round_trip(dendropy, src, schema, o, api="treelist", route="string", tmpdir=None):
+def round_trip(dendropy, src, schema, o, api="treelist", route="string", tmpdir=None, pad=None):
     """src: Tree or TreeList -> (text, raised, out_trees, out_ns)"""
-    wkw, rkw = writer_kwargs(schema, o), reader_kwargs(schema, o)
+    wkw, rkw = writer_kwargs(schema, o, pad), reader_kwargs(schema, o)
     cls = dendropy.Tree if api == "tree" else dendropy.TreeList
     path = None
     try:
@@ -208,16 +230,22 @@ def round_trip(dendropy, src, schema, o, api="treelist", route="string", tmpdir=
     return text, "", list(val), val.taxon_namespace
 
 
-def event_for(dendropy, tl, schema, o, api="treelist", route="string", tmpdir=None, text_cap=500):
+def event_for(dendropy, tl, schema, o, api="treelist", route="string", tmpdir=None, text_cap=500, pad=None):
+    apply_pad(tl, pad)
     src_obj = tl[0] if api == "tree" else tl
     src_trees = [tl[0]] if api == "tree" else list(tl)
     src = project_side(src_trees, tl.taxon_namespace)          # projected before anything is written
     try:
-        text, raised, out_trees, out_ns = round_trip(dendropy, src_obj, schema, o, api, route, tmpdir)
+        text, raised, out_trees, out_ns = round_trip(dendropy, src_obj, schema, o, api, route, tmpdir, pad)
     except Exception as ex:                      # the *writer* raised: also a failed round trip
         text, raised, out_trees, out_ns = "", "write:" + type(ex).__name__, [], None
-    return {"action": "RoundTrip", "schema": schema, "o": dict(o), "api": api, "route": route, "raised": raised,
-            "src": src, "out": project_side(out_trees, out_ns), "text": text[:text_cap]}
+    ev = {"action": "RoundTrip", "schema": schema, "o": dict(o), "api": api, "route": route, "raised": raised,
+          "src": src, "out": project_side(out_trees, out_ns), "text": text[:text_cap]}
+    if pad:
+        ev["pad"] = pad.get("tree") if pad.get("tree") is not None else pad.get("file", 0)
+        ev["textlen"] = len(text)
+        ev["text"] = text[-text_cap:]               # the padded head is not informative
+    return ev
 
 
 def token_events(dendropy, labels, combos):
